@@ -156,3 +156,11 @@ META["C11"] = dict(
                 "timely close of silent connections, balanced lifecycle callbacks, released UDP registrations and goroutines."),
     level_note=("Trusted: the mutation vocabulary; loopback; settle times (7 s lifecycle, 4 s goroutines)."),
 )
+
+META["C13"] = dict(
+    design_ref="DESIGN.md section 4, C13",
+    technique="stateful property-based testing (rapid) over schedules: generated worlds and close operations issued sequentially or concurrently with traffic; bounded-latency, callback-order and leak-census oracles; repetition across 16 processes (and a -race build in the thorough tier) samples the interleavings",
+    level_text=("Exploration: generated (peers x protocol steps x close operations x timing) with packets in flight; every Close timed, the callback "
+                "log checked for balance and order, goroutines and sockets counted afterwards."),
+    level_note=("Trusted: schedules are sampled, not controlled - a violation that needs one specific interleaving is found with a probability per case, not with certainty."),
+)
